@@ -3,6 +3,8 @@ from . import serial, bytesacct
 
 
 def run(ctx):
+    from . import c06 as _c06
+    _c06.rule_empty_delta(ctx)     # R06.10: a state equal to the first snapshot is still written
     from . import c19
     c19.rule_serving_is_readonly(ctx)     # R19.4: writing a snapshot leaves the simulation as it was
     serial.rule_inert_members(ctx)
